@@ -275,7 +275,7 @@ def run(ctx):
             if not ctx.mine(idx):
                 continue
             ch = gen.children_of(par)
-            fam = ("Node", "NM", "LM", "AnyNode")[idx % 4]
+            fam = TR.READ_FAMILIES[idx % len(TR.READ_FAMILIES)]
             names = ["n%02d" % i for i in range(n)]
             nodes = TR.build(par, fam, names)
             idmap = {id(o): i for i, o in enumerate(nodes)}
@@ -299,7 +299,7 @@ def run(ctx):
         n = rng.randint(8, 40)
         par, kind = gen.random_tree(rng, n, "lastchild" if r % 4 == 0 else None)
         ch = gen.children_of(par)
-        fam = ("Node", "NM", "LM", "AnyNode")[r % 4]
+        fam = TR.READ_FAMILIES[r % len(TR.READ_FAMILIES)]
         names = ["n%02d" % i for i in range(n)]
         nodes = TR.build(par, fam, names)
         idmap = {id(o): i for i, o in enumerate(nodes)}
